@@ -30,6 +30,13 @@ static inline uint64_t mix64(uint64_t a, uint64_t b) {
     uint64_t s = a ^ (b + 0x9E3779B97F4A7C15ull + (a << 6) + (a >> 2));
     return splitmix64(s);
 }
+// well-mixed combination for deriving run seeds from (VERIF_SEED, run index): distinct pairs give unrelated seeds
+static inline uint64_t seed_mix(uint64_t base, uint64_t idx) {
+    uint64_t a = base * 0xD6E8FEB86659FD93ull + 0x2545F4914F6CDD1Dull;
+    uint64_t x = splitmix64(a);
+    uint64_t b = idx * 0x9E3779B97F4A7C15ull + x;
+    return splitmix64(b) ^ x;
+}
 struct Rng {
     uint64_t s;
     explicit Rng(uint64_t seed = 0) : s(seed) {}
